@@ -38,6 +38,11 @@ type Search struct {
 	Assume map[string]string
 	// NoFacts disables path sensitivity.
 	NoFacts bool
+	// Via, when set, arms the query only after an edge satisfying it has been
+	// taken: Target, Stop and Cut are ignored before that. The search then
+	// starts at the function entry (or start) and carries the facts learned on
+	// the way to the Via edge.
+	Via func(e Edge) bool
 
 	classes map[string]bool // access paths that are condition classes in Fn
 	prog    *Prog
@@ -48,7 +53,7 @@ type state struct {
 	idx   int
 	facts map[string]string
 	prev  *state
-	via   string
+	armed bool
 }
 
 func factsKey(f map[string]string) string {
@@ -163,6 +168,111 @@ func (s *Search) classKey(v ssa.Value) string {
 	return ""
 }
 
+// canonOperand renders an operand of a comparison so that two evaluations of
+// the same expression (same SSA values, or loads of the same field of the same
+// base value) get the same text. Every SSA value name is wrapped in [] so that
+// facts can be invalidated when the value is redefined along a path.
+func canonOperand(v ssa.Value) string {
+	switch x := v.(type) {
+	case *ssa.Const:
+		return "k:" + constStr(x)
+	case *ssa.Parameter:
+		return "p:" + x.Name()
+	case *ssa.UnOp:
+		if x.Op == token.MUL {
+			switch a := x.X.(type) {
+			case *ssa.FieldAddr:
+				base := canonOperand(a.X)
+				if base == "" {
+					return ""
+				}
+				return "ld(" + base + "." + fieldName(a.X.Type(), a.Field) + ")"
+			case *ssa.Parameter:
+				return "ld(p:" + a.Name() + ".*)"
+			}
+		}
+		return ""
+	case *ssa.Convert:
+		return canonOperand(x.X)
+	case *ssa.ChangeType:
+		return canonOperand(x.X)
+	}
+	if v.Name() != "" {
+		return "[" + v.Name() + "]"
+	}
+	return ""
+}
+
+// cmpKey returns the canonical fact key of a comparison and whether the
+// comparison's truth equals the fact's truth (pos) or its negation.
+func cmpKey(b *ssa.BinOp) (key string, pos bool) {
+	x, y := canonOperand(b.X), canonOperand(b.Y)
+	if x == "" || y == "" {
+		return "", false
+	}
+	op := b.Op
+	pos = true
+	switch op {
+	case token.NEQ:
+		op, pos = token.EQL, false
+	case token.GEQ:
+		op, pos = token.LSS, false
+	case token.LEQ:
+		op, pos = token.GTR, false
+	case token.EQL, token.LSS, token.GTR:
+	default:
+		return "", false
+	}
+	if op == token.EQL && y < x {
+		x, y = y, x
+	}
+	return "cmp:" + op.String() + "(" + x + "," + y + ")", pos
+}
+
+// invalidate drops comparison facts that mention a redefined value or a
+// possibly overwritten field.
+func invalidate(facts map[string]string, in ssa.Instruction) map[string]string {
+	var drop func(k string) bool
+	switch x := in.(type) {
+	case *ssa.Store:
+		fld := ""
+		if fa, ok := x.Addr.(*ssa.FieldAddr); ok {
+			fld = "." + fieldName(fa.X.Type(), fa.Field) + ")"
+		} else if _, ok := x.Addr.(*ssa.Parameter); ok {
+			fld = ".*)"
+		} else {
+			return facts
+		}
+		drop = func(k string) bool { return strings.Contains(k, fld) }
+	case ssa.CallInstruction:
+		name := ""
+		if v, ok := in.(ssa.Value); ok {
+			name = "[" + v.Name() + "]"
+		}
+		drop = func(k string) bool { return strings.Contains(k, "ld(") || (name != "" && strings.Contains(k, name)) }
+	default:
+		v, ok := in.(ssa.Value)
+		if !ok || v.Name() == "" {
+			return facts
+		}
+		name := "[" + v.Name() + "]"
+		drop = func(k string) bool { return strings.Contains(k, name) }
+	}
+	var nf map[string]string
+	for k := range facts {
+		if strings.HasPrefix(k, "cmp:") && drop(k) {
+			if nf == nil {
+				nf = copyFacts(facts)
+			}
+			delete(nf, k)
+		}
+	}
+	if nf != nil {
+		return nf
+	}
+	return facts
+}
+
 // eval evaluates a boolean condition under the facts of a path.
 func (s *Search) eval(v ssa.Value, facts map[string]string) (val, known bool) {
 	if b, ok := ConstBool(v); ok {
@@ -184,6 +294,11 @@ func (s *Search) eval(v ssa.Value, facts map[string]string) (val, known bool) {
 			return f == "true", true
 		}
 	case *ssa.BinOp:
+		if k, pos := cmpKey(x); k != "" {
+			if f, ok := facts[k]; ok {
+				return (f == "true") == pos, true
+			}
+		}
 		if x.Op == token.EQL || x.Op == token.NEQ {
 			l, r := x.X, x.Y
 			if _, ok := l.(*ssa.Const); ok {
@@ -228,6 +343,9 @@ func (s *Search) learn(v ssa.Value, val bool, facts map[string]string) {
 	case *ssa.Phi:
 		facts[phiKey(x)] = fmt.Sprint(val)
 	case *ssa.BinOp:
+		if k, pos := cmpKey(x); k != "" {
+			facts[k] = fmt.Sprint(val == pos)
+		}
 		if x.Op == token.EQL || x.Op == token.NEQ {
 			l, r := x.X, x.Y
 			if _, ok := l.(*ssa.Const); ok {
@@ -328,6 +446,7 @@ func (s *Search) Run(start ssa.Instruction) (bool, []string) {
 	} else {
 		st = &state{b: start.Block(), idx: indexOf(start.Block(), start) + 1, facts: init}
 	}
+	st.armed = s.Via == nil
 	visited := map[string]bool{}
 	queue := []*state{st}
 	steps := 0
@@ -342,12 +461,15 @@ func (s *Search) Run(start ssa.Instruction) (bool, []string) {
 		stopped := false
 		for i := cur.idx; i < len(b.Instrs); i++ {
 			in := b.Instrs[i]
-			if s.Target != nil && s.Target(in) {
+			if cur.armed && s.Target != nil && s.Target(in) {
 				return true, s.witness(cur, in)
 			}
-			if s.Stop != nil && s.Stop(in) {
+			if cur.armed && s.Stop != nil && s.Stop(in) {
 				stopped = true
 				break
+			}
+			if !s.NoFacts && len(cur.facts) > 0 {
+				cur.facts = invalidate(cur.facts, in)
 			}
 		}
 		if stopped {
@@ -361,9 +483,10 @@ func (s *Search) Run(start ssa.Instruction) (bool, []string) {
 		}
 		for si, succ := range b.Succs {
 			e := Edge{b, si}
-			if s.Cut != nil && s.Cut(e) {
+			if cur.armed && s.Cut != nil && s.Cut(e) {
 				continue
 			}
+			armed := cur.armed || (s.Via != nil && s.Via(e))
 			facts := cur.facts
 			if cond != nil && !s.NoFacts {
 				want := si == 0
@@ -376,12 +499,12 @@ func (s *Search) Run(start ssa.Instruction) (bool, []string) {
 			if !s.NoFacts {
 				facts = s.enter(b, succ, facts)
 			}
-			key := fmt.Sprintf("%d|%s", succ.Index, factsKey(facts))
+			key := fmt.Sprintf("%d|%v|%s", succ.Index, armed, factsKey(facts))
 			if visited[key] {
 				continue
 			}
 			visited[key] = true
-			queue = append(queue, &state{b: succ, idx: 0, facts: facts, prev: cur})
+			queue = append(queue, &state{b: succ, idx: 0, facts: facts, prev: cur, armed: armed})
 		}
 	}
 	return false, nil
